@@ -391,7 +391,8 @@ theorem validateCp_none_inv (h : Hist S P D O M) (c : Cp S D O M) (hv : validate
     c.w.core.hist.length = c.tick ∧ c.w.txc = c.tick ∧
     (c.tick = 0 → c.w.lastMat = sem.noOut) ∧
     (c.tick ≠ 0 → histMatches sem h.entries 0 c.w.core.hist = true ∧
-      ∃ e, h.entries[c.tick - 1]? = some e ∧ c.w.lastMat = e.outputs) := by
+      ∃ e, h.entries[c.tick - 1]? = some e ∧ c.w.lastMat = e.outputs) ∧
+    c.nIngress = 0 ∧ c.nErrs = 0 ∧ c.ls = c.w.core.hist.getLast? := by
   unfold validateCp at hv
   by_cases h1 : c.tick > h.entries.length
   · rw [if_pos h1] at hv; cases hv
@@ -419,21 +420,34 @@ theorem validateCp_none_inv (h : Hist S P D O M) (c : Cp S D O M) (hv : validate
     by_cases h7 : c.w.txc ≠ c.tick
     · rw [if_pos h7] at hv; cases hv
     rw [if_neg h7] at hv
-    refine ⟨by omega, Decidable.of_not_not h2, Decidable.of_not_not h3, Decidable.of_not_not h4,
-      ⟨ex, rfl, Decidable.of_not_not h5⟩, Decidable.of_not_not h6, Decidable.of_not_not h7, ?_, ?_⟩
-    · intro h0
-      rw [if_pos h0] at hv
-      by_cases h8 : c.w.lastMat ≠ sem.noOut
-      · rw [if_pos h8] at hv; cases hv
-      · exact Decidable.of_not_not h8
-    · intro h0
-      rw [if_neg h0] at hv
+    by_cases h7a : c.nIngress ≠ 0
+    · rw [if_pos h7a] at hv; cases hv
+    rw [if_neg h7a] at hv
+    by_cases h7b : c.nErrs ≠ 0
+    · rw [if_pos h7b] at hv; cases hv
+    rw [if_neg h7b] at hv
+    have hlen : c.w.core.hist.length = c.tick := Decidable.of_not_not h6
+    by_cases h0 : c.tick = 0
+    · rw [if_pos h0] at hv
+      cases hls : c.ls with
+      | some x => rw [hls] at hv; simp at hv
+      | none =>
+        rw [hls] at hv
+        simp only [Option.isSome_none, Bool.false_eq_true, if_false] at hv
+        have hnil : c.w.core.hist = [] := List.eq_nil_of_length_eq_zero (by omega)
+        refine ⟨by omega, Decidable.of_not_not h2, Decidable.of_not_not h3, Decidable.of_not_not h4,
+          ⟨ex, rfl, Decidable.of_not_not h5⟩, hlen, Decidable.of_not_not h7, ?_, fun hn => absurd h0 hn,
+          Decidable.of_not_not h7a, Decidable.of_not_not h7b, by rw [hnil]; rfl⟩
+        intro _
+        by_cases h8 : c.w.lastMat ≠ sem.noOut
+        · rw [if_pos h8] at hv; cases hv
+        · exact Decidable.of_not_not h8
+    · rw [if_neg h0] at hv
       cases hm : histMatches sem h.entries 0 c.w.core.hist with
       | false => rw [hm] at hv; simp at hv
       | true =>
         rw [hm] at hv
         simp only [Bool.not_true, Bool.false_eq_true, if_false] at hv
-        refine ⟨rfl, ?_⟩
         cases he : h.entries[c.tick - 1]? with
         | none => rw [he] at hv; cases hv
         | some e =>
@@ -441,7 +455,16 @@ theorem validateCp_none_inv (h : Hist S P D O M) (c : Cp S D O M) (hv : validate
           simp only [] at hv
           by_cases h9 : c.w.lastMat ≠ e.outputs
           · rw [if_pos h9] at hv; cases hv
-          · exact ⟨e, rfl, Decidable.of_not_not h9⟩
+          rw [if_neg h9] at hv
+          by_cases h10 : c.ls.isNone = true
+          · rw [if_pos h10] at hv; cases hv
+          rw [if_neg h10] at hv
+          by_cases h11 : c.ls ≠ c.w.core.hist.getLast?
+          · rw [if_pos h11] at hv; cases hv
+          exact ⟨by omega, Decidable.of_not_not h2, Decidable.of_not_not h3, Decidable.of_not_not h4,
+            ⟨ex, rfl, Decidable.of_not_not h5⟩, hlen, Decidable.of_not_not h7, fun hz => absurd hz h0,
+            fun _ => ⟨rfl, e, rfl, Decidable.of_not_not h9⟩,
+            Decidable.of_not_not h7a, Decidable.of_not_not h7b, Decidable.of_not_not h11⟩
 
 /-! ### `cpBefore` -/
 
